@@ -1193,6 +1193,9 @@ func (ce *cenv) pseudo(name string, x *ast.CallExpr) (Val, bool) {
 		fn := fnNameArg(x.Args[0])
 		idx, _ := strconv.Atoi(types.ExprString(x.Args[1]))
 		rt, ok := ex.lastResTypes[fmt.Sprintf("%s.%d", fn, idx)]
+		if !ok && fn == "RawConn.Control" && idx == 0 {
+			rt, ok = errorT(), true
+		}
 		if !ok {
 			sig := ex.contractSig(ce.pkg, fn)
 			if sig == nil || idx >= sig.Results().Len() {
